@@ -201,7 +201,8 @@ class C19(Prop):
     id = 'C19'
     registered = True
     technique = ('Hypothesis-generated histories of tests with thread actions (start via threading/_thread, hold or '
-                 'join, release in a later test, ignore patterns); reported thread idents per test vs. the world\'s record')
+                 'join, release / rename / late registration in a later test, ignore patterns); reported thread idents per test '
+                 'vs. the world\'s record')
     level_text = ('Sequences of up to 6 tests start threads through threading.Thread or _thread.start_new_thread, named '
                   'or not, which either end before the test ends or block until a later test releases them (the world '
                   'waits until the thread is really gone), under generated --ignore-new-thread patterns; the idents in '
